@@ -75,7 +75,7 @@ func vfH_C17_Cells() {
 	}
 	m.Clear()
 	for i := 0; i < doNotUse; i++ {
-		vfAssert(m.get(metricType(i)) == 0, "C17.clear-zeroes")
+		vfAssert(m.get(metricType(i)) == 0, "C15.C17.metrics-clear-zeroes-every-counter")
 	}
 	var nilM *Metrics
 	nilM.add(t, h, d)
